@@ -56,11 +56,14 @@ def driver(chk, n):
         first.append(rec)
     for i in range(n // 4):
         k = rng.choice([0, 1, 2, 3, 4, 5, 8, 13])
-        first.append({"e": "PedBlindSum", "in": {"blinds": [b32(rnd_blind(rng, rng.random() < 0.8)) for _ in range(k)], "npos": rng.randrange(0, k + 1)}})
+        bl = [b32(rnd_blind(rng, rng.random() < 0.8)) for _ in range(k)]
+        if k and rng.random() < 0.2: bl[rng.randrange(k)] = b32(rng.choice([N, N + 1, 2**256 - 1, N + rng.getrandbits(100)]))
+        first.append({"e": "PedBlindSum", "in": {"blinds": bl, "npos": rng.randrange(0, k + 1)}})
     for i in range(n // 8):
         k = rng.choice([1, 2, 3, 5, 9])
-        first.append({"e": "PedBlindGenSum", "in": {"values": [u64(rnd_u64(rng)) for _ in range(k)], "gblinds": [b32(rnd_blind(rng, rng.random() < 0.85)) for _ in range(k)],
-                                                    "blinds": [b32(rnd_blind(rng, rng.random() < 0.85)) for _ in range(k)], "nin": rng.randrange(0, k)}})
+        gb, bl = [[b32(rnd_blind(rng, rng.random() < 0.85)) for _ in range(k)] for _ in range(2)]
+        if rng.random() < 0.25: rng.choice([gb, bl])[rng.randrange(k)] = b32(rng.choice([N, N + 1, 2**256 - 1, N + rng.getrandbits(100)]))
+        first.append({"e": "PedBlindGenSum", "in": {"values": [u64(rnd_u64(rng)) for _ in range(k)], "gblinds": gb, "blinds": bl, "nin": rng.randrange(0, k)}})
     for i in range(n // 6):
         pfx = rng.choice([8, 9, 10, 11, 2, 3, rng.randrange(256)])
         x = rng.choice([rng.getrandbits(256), edge_scalar(rng), P - rng.randrange(1, 4), P + rng.randrange(0, 3)]) % 2**256
